@@ -67,7 +67,25 @@ Proof.
 Qed.
 
 (* ---------- well-formed errors and registers ---------- *)
-Definition wfe (e : err) : Prop := match ereason e with REF exp _ => sorted exp | RCustom _ => True end.
+(* well formed: the expected set is a sorted list, and a label occurs at most once among the contexts of the error *)
+Definition wfe (e : err) : Prop :=
+  match ereason e with REF exp _ => sorted exp | RCustom _ => True end /\ NoDup (map fst (ectx e)).
+
+Lemma has_ctx_false l : forall c : list (nat * span), has_ctx l c = false -> ~ In l (map fst c).
+Proof.
+  induction c as [|[l' sp] r IH]; cbn; [tauto|]. destruct (Nat.eqb_spec l l') as [->|Hne]; [discriminate|].
+  intros H [E|Hin]; [congruence|]. exact (IH H Hin).
+Qed.
+
+Lemma nodup_snoc (l : nat) (sp : span) (c : list (nat * span)) :
+  NoDup (map fst c) -> ~ In l (map fst c) -> NoDup (map fst (c ++ [(l, sp)])).
+Proof.
+  intros Hn Hi. rewrite map_app. cbn [map fst].
+  induction (map fst c) as [|x r IH]; cbn; [constructor; [intros []|constructor]|].
+  inversion Hn as [|? ? Hx Hr]; subst. constructor.
+  - rewrite in_app_iff. cbn. intros [H|[H|[]]]; [exact (Hx H)|]. subst. apply Hi. now left.
+  - apply IH; auto. intros H. apply Hi. now right.
+Qed.
 Definition wfr (a : option lerr) : Prop := match a with Some (_, e) => wfe e | None => True end.
 
 Lemma or_found_assoc f g h : or_found (or_found f g) h = or_found f (or_found g h).
@@ -86,17 +104,17 @@ Variable K : ekind.
 
 Lemma merge_assoc x y z : wfe x -> merge K (merge K x y) z = merge K x (merge K y z).
 Proof.
-  unfold merge, wfe. destruct K; auto. intros Hx. cbn [espan ereason ectx]. now rewrite flat_merge_assoc.
+  unfold merge, wfe. destruct K; auto. intros [Hx _]. cbn [espan ereason ectx]. now rewrite flat_merge_assoc.
 Qed.
 
 Lemma merge_wfe x y : wfe x -> wfe (merge K x y).
 Proof.
-  unfold merge, wfe. destruct K; auto. cbn. destruct (ereason x) as [k|e f], (ereason y) as [k'|e' f']; cbn; auto.
-  intros; apply union_sorted; auto.
+  unfold merge, wfe. destruct K; auto. cbn. intros [Hs Hn]. split; [|exact Hn].
+  destruct (ereason x) as [k|e f], (ereason y) as [k'|e' f']; cbn; auto. apply union_sorted; auto.
 Qed.
 
 Lemma expected_found_wfe exp found sp : wfe (expected_found K exp found sp).
-Proof. unfold expected_found, wfe. destruct K; cbn; auto. apply mkset_sorted. Qed.
+Proof. unfold expected_found, wfe. destruct K; cbn; (split; [auto|constructor]). apply mkset_sorted. Qed.
 
 Lemma merge_ef_is_merge x exp found sp : merge_ef K x exp found sp = merge K x (expected_found K exp found sp).
 Proof.
@@ -104,15 +122,27 @@ Proof.
 Qed.
 
 Lemma custom_err_wfe k sp : wfe (custom_err K k sp).
-Proof. unfold custom_err, wfe. destruct K; cbn; auto. Qed.
+Proof. unfold custom_err, wfe. destruct K; cbn; (split; [auto|constructor]). Qed.
 
 Lemma label_with_wfe l e : wfe e -> wfe (label_with K l e).
 Proof.
-  unfold label_with, wfe. destruct K; auto. destruct (ereason e); cbn; intros; (split; [intros ? []|exact I]).
+  unfold label_with, wfe. destruct K; auto. intros [_ Hn]. destruct (ereason e); cbn; (split; [|exact Hn]); (split; [intros ? []|exact I]).
 Qed.
 
 Lemma in_context_wfe l sp e : wfe e -> wfe (in_context K l sp e).
-Proof. unfold in_context, wfe. destruct K; auto. destruct (has_ctx l (ectx e)); auto. Qed.
+Proof.
+  unfold in_context, wfe. destruct K; auto. destruct (has_ctx l (ectx e)) eqn:E; auto.
+  intros [Hs Hn]. cbn [ereason ectx]. split; [exact Hs|]. apply nodup_snoc; auto. now apply has_ctx_false.
+Qed.
+
+(* a label is recorded at most once: in_context on an error that already carries the label changes nothing *)
+Lemma in_context_idem l sp sp' e : in_context K l sp' (in_context K l sp e) = in_context K l sp e.
+Proof.
+  unfold in_context. destruct K; auto. destruct (has_ctx l (ectx e)) eqn:E; [now rewrite E|].
+  cbn [ectx]. assert (H : has_ctx l (ectx e ++ [(l, sp)]) = true).
+  { clear E. induction (ectx e) as [|[l' s'] r IH]; cbn; [now rewrite Nat.eqb_refl|]. destruct (Nat.eqb l l'); auto. }
+  now rewrite H.
+Qed.
 
 Lemma map_err_fn_wfe k e : wfe (map_err_fn K k e).
 Proof. apply custom_err_wfe. Qed.
